@@ -115,6 +115,17 @@ def run_shared(chk, tier, own):
             if len(seen) < 4:
                 raise core.MachineryFailure("Gen_IndxLong produced %d cases" % len(seen))
             chk.extra["spec_generated_files_loaded"] = tid
+        if own == "C10":
+            # entry counts on both sides of every power of two up to 2^16 (2^17 thorough), and of every constant the
+            # current indxio source mentions (a block size is a boundary)
+            sizes = {c + d for c in [1 << 8, 1 << 12, 1 << 16] + ([1 << 15, 1 << 17] if tier == "thorough" else []) for d in (-1, 0, 1)}
+            harvested = indx.harvest_sizes(IndxIO)
+            sizes |= {c * m + d for c in harvested for m in (1, 2) for d in (-1, 0, 1) if c * m <= (1 << 18)}
+            chk.extra["entry_count_constants_harvested_from_source"] = harvested
+            for n in sorted(sizes):
+                tid += 1
+                events.append(indx.many_event(IndxIO, tid, n, str(wd), core.SEED))
+                meta[tid] = {"kind": "many", "entries": n}
         if own in ("C11", "C12"):
             for cl, common, counts in indx.gen_size_cases(tier):
                 tid += 1
@@ -154,6 +165,8 @@ def consume(chk, events, meta, own):
 
 
 def klass(m):
+    if m["kind"] == "many":
+        return "entries=%d" % m["entries"]
     if m["kind"] == "size":
         return "rows>=2^30" if sum(m["rowcounts"]) >= 2 ** 30 else "rows<2^30"
     if m["kind"] == "read":
@@ -178,6 +191,8 @@ def replay(chk, path):
             ev = indx.file_event(IndxIO, 1, r["arity"], r["common"], [(tuple(c), rr) for c, rr in r["ents"]], str(wd))
         elif r["kind"] == "read":
             ev = indx.read_event(IndxIO, 1, r, r["bytes"], str(wd))
+        elif r["kind"] == "many":
+            ev = indx.many_event(IndxIO, 1, r["entries"], str(wd), core.SEED)
         else:
             ev = indx.size_event(IndxIO, 1, [tuple(c) for c in r["coords"]], r["common"], r["rowcounts"], str(wd))
     finally:
